@@ -7,9 +7,12 @@ package main
 import (
 	"fmt"
 	"go/ast"
+	"go/constant"
 	"go/token"
 	"go/types"
+	"strconv"
 	"strings"
+	"time"
 
 	"golang.org/x/tools/go/ssa"
 )
@@ -335,4 +338,89 @@ func (w *World) intTable(pkgPath, name string) ([]string, error) {
 		out = append(out, bl.Value)
 	}
 	return out, nil
+}
+
+func init() {
+	extraEngines["C18"] = append(extraEngines["C18"], censusTLD)
+}
+
+// censusTLD: every entry of the generated delegation table is keyed by its own lower-case
+// name, has a parseable delegation date and an empty or parseable removal date not earlier
+// than the delegation; nobody writes the table. Dates are evaluated with Go's time.Parse
+// (the function the code calls); this establishes tldWF().
+func censusTLD(w *World, r *Report) []*Obligation {
+	pkg := w.ModPath + "/util"
+	init, fset := w.findVarInit(pkg, "tldMap")
+	cl, ok := init.(*ast.CompositeLit)
+	src := ""
+	if ok {
+		src = posStr(fset, cl.Pos())
+	}
+	if !ok {
+		return []*Obligation{censusObl("C18", "C18/util.tldMap/entries#1", "census", src, "tldMap is a map literal", false, "tldMap is not initialised by a composite literal")}
+	}
+	layout := "2006-01-02"
+	if c, ok := w.pkgByPath(pkg).Scope().Lookup("GTLDPeriodDateFormat").(*types.Const); ok {
+		layout = constant.StringVal(c.Val())
+	}
+	var badKey, badDeleg, badRem []string
+	n := 0
+	withRemoval := 0
+	for _, el := range cl.Elts {
+		kv, ok := el.(*ast.KeyValueExpr)
+		if !ok {
+			badKey = append(badKey, "non key-value element")
+			continue
+		}
+		n++
+		key := strLitValue(kv.Key)
+		fields := map[string]string{}
+		if v, ok := kv.Value.(*ast.CompositeLit); ok {
+			for _, f := range v.Elts {
+				if fkv, ok := f.(*ast.KeyValueExpr); ok {
+					if id, ok := fkv.Key.(*ast.Ident); ok {
+						fields[id.Name] = strLitValue(fkv.Value)
+					}
+				}
+			}
+		}
+		if key == "\x00" || fields["GTLD"] != key || strings.ToLower(key) != key || key == "" {
+			badKey = append(badKey, key)
+		}
+		d, err := time.Parse(layout, fields["DelegationDate"])
+		if err != nil {
+			badDeleg = append(badDeleg, key+":"+fields["DelegationDate"])
+		}
+		if rm := fields["RemovalDate"]; rm != "" {
+			withRemoval++
+			t, err2 := time.Parse(layout, rm)
+			if err2 != nil || (err == nil && t.Before(d)) {
+				badRem = append(badRem, key+":"+rm)
+			}
+		}
+	}
+	r.Extra["tld_entries"] = n
+	r.Extra["tld_entries_with_removal_date"] = withRemoval
+	r.Trusted = append(r.Trusted, "time.Parse evaluated by the generator on the dates of the delegation table (the same function the code calls)")
+	var out []*Obligation
+	out = append(out, censusObl("C18", "C18/util.tldMap/keys#1", "census", src, fmt.Sprintf("each of the %d entries is keyed by its own lower-case GTLD name", n), len(badKey) == 0 && n > 0, strings.Join(badKey, ",")))
+	out = append(out, censusObl("C18", "C18/util.tldMap/delegation#1", "census", src, "every delegation date parses under the table's date layout", len(badDeleg) == 0, strings.Join(badDeleg, ",")))
+	out = append(out, censusObl("C18", "C18/util.tldMap/removal#1", "census", src, "every removal date is empty, or parses and is not earlier than the delegation date", len(badRem) == 0, strings.Join(badRem, ",")))
+	var ws []string
+	for _, f := range w.writersOf(pkg, "tldMap") {
+		if !strings.HasSuffix(f, ".init") {
+			ws = append(ws, f)
+		}
+	}
+	out = append(out, censusObl("C18", "C18/util.tldMap/nowriter#1", "census", src, "no function other than the package initialiser writes util.tldMap", len(ws) == 0, strings.Join(ws, ", ")))
+	return out
+}
+
+func strLitValue(x ast.Expr) string {
+	if bl, ok := x.(*ast.BasicLit); ok && bl.Kind == token.STRING {
+		if s, err := strconv.Unquote(bl.Value); err == nil {
+			return s
+		}
+	}
+	return "\x00"
 }
